@@ -36,7 +36,8 @@ def run(tier):
     for (module, cfg, ov, modes, rots) in CONFIGS[tier]:
         run_config(chk, module, cfg, ov,
                    lambda rec, i: {"rec": rec, "seed": chk.seed, "modes": modes, "rot": (i + chk.seed) % rots,
-                                   "widen": 260 if (i + chk.seed) % 499 == 0 else 0},
+                                   "widen": 260 if (i + chk.seed) % 499 == 0 else 0,
+                                   "manyprops": (i + chk.seed) % 499 == 1, "repeat": 130 if (i + chk.seed) % 499 == 2 else 0},
                    "harness.segments", "replay_segments_case", sample_fn=sample_fn, sample_every=20011)
     # TRACE (code -> spec): the repository's own scenario / data files, parsed by the independent structural parser,
     # are run through the reader model (Trace_Segments.tla) and compared with what TdmsFile.read observed
